@@ -7,6 +7,7 @@ import (
 	"os"
 	"strings"
 	"sync"
+	"time"
 
 	"verif/harness/internal/core"
 	"verif/harness/internal/tlc"
@@ -154,7 +155,7 @@ func runC10(c *core.Ctx) error {
 	maxTrace := c.Pick(2500, 12000)
 	stride := c.Pick(97, 251)
 	n := 0
-	res, err := tlc.Run(tlc.Opts{Module: "SchemaApi", Cfg: cfg, Workers: 16, Timeout: 0, OnLine: func(l string) {
+	res, err := tlc.Run(tlc.Opts{Module: "SchemaApi", Cfg: cfg, Workers: 16, Timeout: 40 * time.Minute, OnLine: func(l string) {
 		n++
 		if (n+int(c.Seed))%stride == 0 && traced < maxTrace {
 			traced++
